@@ -42,8 +42,10 @@ def rq(q):
     refs = "[" + "; ".join("(%s, %s)" % (coq_string(k), cpath(v)) for k, v in sorted(q["refs"].items())) + "]"
     names = "[" + "; ".join("(%s, %s)" % (coq_string(k), coq_string(v)) for k, v in sorted(q["names"].items())) + "]"
     entry = "(Some %s)" % cpath(q["entry"]) if q.get("entry") else "None"
-    return "(mkRq %s %s %s %s %s %s %s %s %s)" % (coq_string(q["root"]), coq_string(q["method"]), q["recv"], refs, names,
-                                                 coq_string(str(q["conn"])), coq_string("%s:%s" % (q["conn"], q["fid"])), cpath(q["node"]), entry)
+    pr = q.get("probe") or {"rename": 3, "node": 3, "entry": 3}
+    return "(mkRq %s %s %s %s %s %s %s %s %s (%d, %d, %d))" % (coq_string(q["root"]), coq_string(q["method"]), q["recv"], refs, names,
+                                                 coq_string(str(q["conn"])), coq_string("%s:%s" % (q["conn"], q["fid"])), cpath(q["node"]), entry,
+                                                 pr["rename"], pr["node"], pr["entry"])
 
 
 def to_case(o):
